@@ -14,8 +14,9 @@ import (
 )
 
 type C14Case struct {
-	Seq  []string `json:"seq"`
-	Cont string   `json:"cont"` // v1, v2, v2pad
+	Seq     []string `json:"seq"`
+	Cont    string   `json:"cont"` // v1, v2, v2pad
+	Trusted bool     `json:"trusted,omitempty"`
 }
 
 // probeR counts how far the source has been consumed.
@@ -79,7 +80,7 @@ func runC14(c any, x *kit.Ctx) {
 	}
 	defer os.Remove(path)
 	n := len(blks)
-	for _, srcKind := range []string{"bytes", "stream", "file"} {
+	for _, srcKind := range []string{"bytes", "stream", "file", "pipe"} {
 		for mask := 0; mask < 1<<n; mask++ {
 			var src io.Reader
 			var pr *probeR
@@ -93,6 +94,15 @@ func runC14(c any, x *kit.Ctx) {
 				p := &probeR{r: bytes.NewReader(file)}
 				pr = p
 				src = p
+			case "pipe":
+				// an *os.File that is NOT seekable although it has a Seek method (stdin of `cat x | ...`)
+				pr_, pw, err := os.Pipe()
+				if err != nil {
+					panic(err)
+				}
+				go func() { pw.Write(file); pw.Close() }()
+				closer = pr_
+				src = pr_
 			case "file":
 				f, err := os.Open(path)
 				if err != nil {
@@ -104,7 +114,12 @@ func runC14(c any, x *kit.Ctx) {
 				src = p
 			}
 			tag := cs.Cont + ":" + srcKind
-			br, err := carv2.NewBlockReader(src)
+			var bropts []carv2.Option
+			if cs.Trusted {
+				bropts = append(bropts, carv2.WithTrustedCAR(true))
+				tag += ":trusted"
+			}
+			br, err := carv2.NewBlockReader(src, bropts...)
 			x.Eval(1)
 			if err != nil {
 				x.Fail("c14:open:"+tag, "NewBlockReader fails on a valid archive: %v", err)
@@ -194,6 +209,9 @@ func genC14(tier string, emit func(any)) {
 	kit.Seqs(names, maxLen, func(s []string) {
 		for _, cont := range []string{"v1", "v2", "v2pad"} {
 			emit(C14Case{Seq: s, Cont: cont})
+			if len(s) <= maxLen-1 {
+				emit(C14Case{Seq: s, Cont: cont, Trusted: true})
+			}
 		}
 	})
 	if tier == "thorough" {
@@ -212,7 +230,7 @@ func init() {
 		Gen:    genC14,
 		Run:    runC14,
 		Decode: kit.DecodeAs[C14Case],
-		Rule: "every archive with up to N blocks over an alphabet of CID widths 4..68 and section lengths at varint boundaries x {CARv1, CARv2, padded CARv2 with index} x EVERY Next/SkipNext choice string (2^n) x {bytes.Reader, plain stream, *os.File}; " +
+		Rule: "every archive with up to N blocks over an alphabet of CID widths 4..68 and section lengths at varint boundaries x {CARv1, CARv2, padded CARv2 with index} x {verifying, TrustedCAR} x EVERY Next/SkipNext choice string (2^n) x {bytes.Reader, plain stream, *os.File, *os.File over a pipe}; " +
 			"metadata compared with the reference layout and the bytes; source consumption probed; non-trivial = choice string mixing both calls",
 		Bound: func(tier string) map[string]any {
 			if tier == "thorough" {
